@@ -80,7 +80,7 @@
 #define W_FILL 0xA5
 #endif
 #ifndef W_CANCONT
-#define W_CANCONT 0     // 1: Policies::canContinueInvoking(args) = "the argument value is not 2"
+#define W_CANCONT 0     // 1: Policies::canContinueInvoking(args) = "the argument value is not 2" (arguments by const reference); 2: the same, arguments by value
 #endif
 #define NEVENTS (W_OBJ == 2 ? 1 : 2)
 
@@ -277,6 +277,10 @@ struct Pol
 #if W_CANCONT == 1
 	static bool canContinueInvoking(const Payload & p) { return p.v != 2; }
 	static bool canContinueInvoking(const Key &, const Payload & p) { return p.v != 2; }
+#elif W_CANCONT == 2
+	// the same policy taking its arguments BY VALUE: it gets copies of the dispatch's arguments, which must stay intact for the next listener
+	static bool canContinueInvoking(Payload p) { return p.v != 2; }
+	static bool canContinueInvoking(Key, Payload p) { return p.v != 2; }
 #endif
 #if W_ORDER == 1
 	template <typename Item> using QueueList = eventpp::OrderedQueueList<Item>;
